@@ -597,9 +597,91 @@ class Machine:
             if isinstance(v, Arr) and isinstance(idx, int) and 0 <= idx < len(v.elems):
                 return v.elems[idx]
             if isinstance(v, BeBytes) and isinstance(idx, int):
+                b_ = self.be_byte(st, v, idx)
+                if b_ is not None:
+                    return b_
                 return Atom('byte%d(%r)' % (idx, v.val), {'s': 'u8', 'k': 'int:u8'})
             return Atom('%r[%r]' % (v, idx))
         raise Abort('projection %r' % (p,))
+
+    BYTE_BOUNDS = (0x18, 0x100, 0x10000, 0x100000000)
+
+    def be_byte(self, st, v, idx):
+        """byte `idx` of the big-endian image of an integer value (pattern matching on `x.to_be_bytes()`).
+        Exact where the cell fixes all higher bytes (a constant, or `x - base` for the lowest byte); a cell that spans the natural
+        boundaries of CBOR heads (0x18, 2^8, 2^16, 2^32) is partitioned there first; inside such a cell the leading non-zero byte
+        is a symbol ranging over 1..=255 (enough to decide `== 0` tests), lower bytes are symbols over 0..=255.  The symbols are
+        registered in st.extra['bytesyms'] so that a run of trailing byte symbols can be read back as the shorter big-endian image."""
+        val = v.val
+        if v.kind != 'be' or not isinstance(val, Int) or not (0 <= idx < v.n):
+            return None
+        try:
+            lo, hi = self.rng(st, val)
+        except KeyError:
+            return None
+        if lo < 0 or hi >= 1 << (8 * v.n):
+            return None
+        shift = 8 * (v.n - 1 - idx)
+        B = 1 << shift
+        BB = B << 8
+        if lo // BB == hi // BB:
+            base = (lo // BB) * BB
+            if B == 1:
+                return lin_add(val, Int.const(base), -1)
+            if (lo - base) // B == (hi - base) // B:
+                return Int.const((lo - base) // B)
+        sg = val.single()
+        if sg and sg[1] in (1, -1):
+            s_, k_, c_ = sg
+            cuts = []
+            for b in self.BYTE_BOUNDS:
+                if lo < b <= hi:
+                    cuts.append(b - c_ if k_ == 1 else c_ - b + 1)
+            cuts = [c for c in cuts if iv_min(st.ranges[s_]) < c <= iv_max(st.ranges[s_])]
+            if cuts:
+                raise NeedSplit(s_, sorted(set(cuts)))
+        if hi < B:
+            return Int.const(0)
+        nm = 'byte%d/%d(%r)' % (idx, v.n, val)
+        exact_div = hi < BB            # all higher bytes are zero on this cell: the byte is val div B
+        new = ((lo // B, hi // B),) if exact_div else ((0, 255),)
+        if nm in st.ranges:
+            new = iv_and(st.ranges[nm], new) or new
+        st.ranges[nm] = new
+        st.symty[nm] = 'u8'
+        d = dict(st.extra.get('bytesyms') or {})
+        d[nm] = (val, v.n, idx, exact_div)
+        st.extra['bytesyms'] = d
+        if len(new) == 1 and new[0][0] == new[0][1]:
+            return Int.const(new[0][0])
+        return Int.sym(nm)
+
+    def byte_switch_cuts(self, st, d, values):
+        """a switch on a byte symbol that is `val div B`: partition val at the blocks of the tested values first"""
+        sg = d.single() if isinstance(d, Int) else None
+        bs = st.extra.get('bytesyms') or {}
+        if not (sg and sg[1] == 1 and sg[2] == 0 and sg[0] in bs):
+            return
+        val, n, idx, exact_div = bs[sg[0]]
+        if not exact_div:
+            return
+        vsg = val.single()
+        if not (vsg and vsg[1] in (1, -1)):
+            return
+        s_, k_, c_ = vsg
+        B = 1 << (8 * (n - 1 - idx))
+        try:
+            lo, hi = self.rng(st, val)
+        except KeyError:
+            return
+        cuts = []
+        for v_ in values:
+            for b in (v_ * B, (v_ + 1) * B):
+                if lo < b <= hi:
+                    cuts.append(b - c_ if k_ == 1 else c_ - b + 1)
+        cuts = [c for c in cuts if iv_min(st.ranges[s_]) < c <= iv_max(st.ranges[s_])]
+        if cuts:
+            raise NeedSplit(s_, sorted(set(cuts)))
 
     def field_ty(self, ty, p):
         if ty and ty.get('k') == 'tuple' and ty.get('elems') and p[1] < len(ty['elems']):
@@ -1456,6 +1538,7 @@ class Machine:
                 outs.append((part, tgt))
             return self.fork_ranges(cfg, fr, d.sym, outs)
         if isinstance(d, Int):
+            self.byte_switch_cuts(st, d, [v for v, _ in vs])
             sg = d.single()
             if sg:
                 s, k, c = sg
